@@ -1,6 +1,7 @@
 package proto
 
 import (
+	"fmt"
 	"go/token"
 	"go/types"
 	"strings"
@@ -45,6 +46,7 @@ type Builder struct {
 	// events runs at most once (its back edges leave the loop).
 	OnceLoop map[string]bool
 
+	sticky     map[string]bool
 	hasComm    map[*ssa.Function]int
 	errCtor    map[*ssa.Function]int
 	Unknown    []string
@@ -303,6 +305,131 @@ func (b *Builder) successReturn(f *ssa.Function, r *ssa.Return) bool {
 	return false
 }
 
+// stickyDecide: a test of a *sticky error field* against nil, on the paths that matter to a conversation.
+//
+// The errWriter idiom keeps the first error in a field of a wrapper object (`if p.err == nil { p.err =
+// p.conn.SendUint32(v) }`) and tests it once per phase (`if p.err != nil { return nil, p.err }`).  The
+// field is sticky when every store to it, anywhere in its package, happens where the field is known to be
+// nil (under `p.err == nil`, or after `if p.err != nil { return }`): once set it is never cleared, so on
+// every execution that ends in success it was nil all along.  The automaton of successful conversations is
+// then the one where `field == nil` is true and `field != nil` is false.
+func (b *Builder) stickyDecide(cond ssa.Value) (bool, bool) {
+	bin, ok := cond.(*ssa.BinOp)
+	if !ok || (bin.Op != token.EQL && bin.Op != token.NEQ) || !isNilConst(bin.Y) {
+		return false, false
+	}
+	ld, ok := bin.X.(*ssa.UnOp)
+	if !ok || ld.Op != token.MUL {
+		return false, false
+	}
+	fa, ok := ld.X.(*ssa.FieldAddr)
+	if !ok || ld.Type().String() != "error" {
+		return false, false
+	}
+	if !b.stickyField(fa) {
+		return false, false
+	}
+	return bin.Op == token.EQL, true
+}
+
+func (b *Builder) stickyField(fa *ssa.FieldAddr) bool {
+	pt, ok := fa.X.Type().Underlying().(*types.Pointer)
+	if !ok {
+		return false
+	}
+	key := fmt.Sprintf("%s#%d", pt.Elem().String(), fa.Field)
+	if b.sticky == nil {
+		b.sticky = map[string]bool{}
+	}
+	if v, ok := b.sticky[key]; ok {
+		return v
+	}
+	b.sticky[key] = false
+	fn := fa.Parent()
+	if fn == nil || fn.Pkg == nil {
+		return false
+	}
+	sameField := func(v ssa.Value) (*ssa.FieldAddr, bool) {
+		f2, ok := v.(*ssa.FieldAddr)
+		if !ok {
+			return nil, false
+		}
+		p2, ok := f2.X.Type().Underlying().(*types.Pointer)
+		return f2, ok && p2.Elem().String() == pt.Elem().String() && f2.Field == fa.Field
+	}
+	stores, okAll := 0, true
+	var fns []*ssa.Function
+	for _, m := range fn.Pkg.Members {
+		if f, ok := m.(*ssa.Function); ok {
+			fns = append(fns, f)
+		}
+		if t, ok := m.(*ssa.Type); ok {
+			for _, recv := range []types.Type{t.Type(), types.NewPointer(t.Type())} {
+				ms := fn.Pkg.Prog.MethodSets.MethodSet(recv)
+				for i := 0; i < ms.Len(); i++ {
+					if f := fn.Pkg.Prog.MethodValue(ms.At(i)); f != nil && f.Pkg == fn.Pkg {
+						fns = append(fns, f)
+					}
+				}
+			}
+		}
+	}
+	for _, f := range fns {
+		all := append([]*ssa.Function{f}, f.AnonFuncs...)
+		for _, g := range all {
+			for _, blk := range g.Blocks {
+				for _, ins := range blk.Instrs {
+					st, ok := ins.(*ssa.Store)
+					if !ok {
+						continue
+					}
+					f2, ok := sameField(st.Addr)
+					if !ok {
+						continue
+					}
+					// the composite literal that creates the object sets nothing or nil
+					if _, isAlloc := f2.X.(*ssa.Alloc); isAlloc {
+						continue
+					}
+					stores++
+					// dominated by an edge on which the field is nil
+					nilHere := false
+					for _, h := range g.Blocks {
+						iff, ok := h.Instrs[len(h.Instrs)-1].(*ssa.If)
+						if !ok {
+							continue
+						}
+						bo, ok := iff.Cond.(*ssa.BinOp)
+						if !ok || (bo.Op != token.EQL && bo.Op != token.NEQ) || !isNilConst(bo.Y) {
+							continue
+						}
+						l2, ok := bo.X.(*ssa.UnOp)
+						if !ok || l2.Op != token.MUL {
+							continue
+						}
+						f3, ok := sameField(l2.X)
+						if !ok || f3.X != f2.X {
+							continue
+						}
+						edge := h.Succs[0]
+						if bo.Op == token.NEQ {
+							edge = h.Succs[1]
+						}
+						if len(edge.Preds) == 1 && edge.Dominates(blk) {
+							nilHere = true
+						}
+					}
+					if !nilHere {
+						okAll = false
+					}
+				}
+			}
+		}
+	}
+	b.sticky[key] = okAll && stores > 0
+	return b.sticky[key]
+}
+
 // decide evaluates a branch condition under parameter assumptions.
 func decide(cond ssa.Value, assume map[string]int64) (bool, bool) {
 	bin, ok := cond.(*ssa.BinOp)
@@ -538,7 +665,13 @@ func (b *Builder) Build(n *NFA, f *ssa.Function, stack []*ssa.Function) (entry, 
 					n.add(cur, exit, "")
 				}
 			case *ssa.If:
-				if v, ok := decide(t.Cond, assume); ok {
+				if v, ok := b.stickyDecide(t.Cond); ok {
+					s := blk.Succs[1]
+					if v {
+						s = blk.Succs[0]
+					}
+					b.succ(n, cur, blk, s, blockIn, collapsed, collapseHeader, collapseSym, exitArm, exitTarget, exitHeader, onceExit)
+				} else if v, ok := decide(t.Cond, assume); ok {
 					s := blk.Succs[1]
 					if v {
 						s = blk.Succs[0]
